@@ -125,7 +125,11 @@ def run(chk):
                             chk.ob("R-GRID", c + "{even}", "length is 2*int(new_npts/2): even by construction", okl,
                                    derived="length %r" % (nl,), loc=ip[0].loc)
                         else:
-                            okl = nl is not None and len(nl.t) == 1 and nl.t[0][0].startswith("mul[") and "n" in nl.t[0][0]
+                            # np.arange(x) has ceil(x) elements for a real x >= 0: `arange(x)` and `arange(int(ceil(x)))` are the same grid
+                            at_ = nl.t[0][0] if (nl is not None and len(nl.t) == 1) else ""
+                            if at_.startswith("ceil[") and at_.endswith("]"):
+                                at_ = at_[5:-1]
+                            okl = nl is not None and len(nl.t) == 1 and at_.startswith("mul[") and "n" in at_
                             chk.ob("R-GRID", c + "{length}", "length is factor*len(values)", okl, derived="length %r" % (nl,), loc=ip[0].loc)
                         expect(chk, "R-GRID", c + ".values", item(r.ret, 0), lin=[R], tags_has=["interp:linear"], loc=r.fi.loc())
                     else:
